@@ -80,7 +80,10 @@ enum Form {
   TakeNext,
   IntoIterator,
   AsyncStream,
+  AsyncSampleStream,
   NoKeyTakeNext,
+  NoKeyAsyncBare,
+  NoKeyAsync,
   NoKeySimple,
   NoKeySimpleAsync,
 }
@@ -102,12 +105,18 @@ fn body() -> Check {
     Form::TakeNext,
     Form::IntoIterator,
     Form::AsyncStream,
+    Form::AsyncSampleStream,
     Form::NoKeyTakeNext,
+    Form::NoKeyAsyncBare,
+    Form::NoKeyAsync,
     Form::NoKeySimple,
     Form::NoKeySimpleAsync,
   ];
   let form = forms[ch(|c| c.index(forms.len()))];
-  let with_key = matches!(form, Form::Take | Form::TakeNext | Form::IntoIterator | Form::AsyncStream);
+  let with_key = matches!(
+    form,
+    Form::Take | Form::TakeNext | Form::IntoIterator | Form::AsyncStream | Form::AsyncSampleStream
+  );
   let reliable = ch(|c| c.chance(2, 3));
   let n_writers = 1 + ch(|c| c.draw(2)) as usize;
   let q = qos(reliable, History::KeepAll, false);
@@ -137,10 +146,10 @@ fn body() -> Check {
   let sub = leak(dpr.create_subscriber(&q).map_err(|e| herr("subscriber", e))?);
 
   let mut rd = leak(match form {
-    Form::Take | Form::TakeNext | Form::IntoIterator | Form::AsyncStream => {
+    Form::Take | Form::TakeNext | Form::IntoIterator | Form::AsyncStream | Form::AsyncSampleStream => {
       Rd::Wk(sub.create_datareader_cdr(&tr, None).map_err(|e| herr("reader", e))?)
     }
-    Form::NoKeyTakeNext => Rd::Nk(sub.create_datareader_no_key_cdr(&tr, None).map_err(|e| herr("reader", e))?),
+    Form::NoKeyTakeNext | Form::NoKeyAsyncBare | Form::NoKeyAsync => Rd::Nk(sub.create_datareader_no_key_cdr(&tr, None).map_err(|e| herr("reader", e))?),
     Form::NoKeySimple | Form::NoKeySimpleAsync => Rd::NkSimple(
       sub
         .create_simple_datareader_no_key(&tr, None)
@@ -192,7 +201,8 @@ fn body() -> Check {
           4,
         ]
       } else {
-        [8, 3, 3, 0, 0, 0, 0]
+        // a dispose on a NO_KEY topic (K flag, the unit key decodes from anything) is no sample
+        [8, 3, 3, 3, 0, 0, 0]
       };
       let it = match ch(|c| c.weighted(&weights)) {
         0 => {
@@ -222,13 +232,46 @@ fn body() -> Check {
   let mut got: Vec<Got> = vec![];
   let mut calls = 0u64;
   let mut next: Vec<usize> = vec![0; n_writers];
-  let mut stream_holder: Leak<Option<Pin<Box<dyn Stream<Item = rustdds::dds::ReadResult<Sample<Msg, u32>>>>>>> =
-    leak(None);
-  if form == Form::AsyncStream {
-    if let Rd::Wk(r) = std::mem::replace(&mut *rd, Rd::NkSimple(dummy_simple(&sub, &dpr)?)) {
-      *stream_holder = Some(Box::pin(r.async_bare_sample_stream()));
+  let mut stream_holder: Leak<Option<Pin<Box<dyn Stream<Item = Got>>>>> = leak(None);
+  if matches!(form, Form::AsyncStream | Form::AsyncSampleStream | Form::NoKeyAsyncBare | Form::NoKeyAsync) {
+    use futures::StreamExt;
+    let wk = |x: Sample<Msg, u32>| match x {
+      Sample::Value(m) => Got::Value { k: m.k, v: m.v },
+      Sample::Dispose(k) => Got::Dispose { k },
+    };
+    match (std::mem::replace(&mut *rd, Rd::NkSimple(dummy_simple(&sub, &dpr)?)), form) {
+      (Rd::Wk(r), Form::AsyncStream) => {
+        *stream_holder = Some(Box::pin(r.async_bare_sample_stream().map(move |x| match x {
+          Ok(s) => wk(s),
+          Err(_) => Got::Error,
+        })));
+      }
+      (Rd::Wk(r), _) => {
+        *stream_holder = Some(Box::pin(r.async_sample_stream().map(move |x| match x {
+          Ok(ds) => wk(ds.into_value()),
+          Err(_) => Got::Error,
+        })));
+      }
+      (Rd::Nk(r), Form::NoKeyAsyncBare) => {
+        *stream_holder = Some(Box::pin(r.async_bare_sample_stream().map(|x| match x {
+          Ok(b) => Got::Value { k: 0, v: b.v },
+          Err(_) => Got::Error,
+        })));
+      }
+      (Rd::Nk(r), _) => {
+        *stream_holder = Some(Box::pin(r.async_sample_stream().map(|x| match x {
+          Ok(ds) => Got::Value {
+            k: 0,
+            v: ds.into_value().v,
+          },
+          Err(_) => Got::Error,
+        })));
+      }
+      _ => {}
     }
   }
+  // the consumer of an async stream is a task: it is polled again only after its waker was invoked
+  let woken = std::sync::Arc::new(WakeFlag(std::sync::atomic::AtomicBool::new(true)));
   loop {
     let pending: Vec<usize> = (0..n_writers).filter(|w| next[*w] < streams[*w].len()).collect();
     if pending.is_empty() {
@@ -276,13 +319,13 @@ fn body() -> Check {
     send_as(&g, subs, false, 100_000);
     e2::run_for(2 * MS)?;
     if ch(|c| c.chance(1, 3)) {
-      drain(&form, &mut rd, &mut stream_holder, &mut got, &mut calls, 1 + ch(|c| c.draw(3)))?;
+      drain(&form, &mut rd, &mut stream_holder, &mut got, &mut calls, 1 + ch(|c| c.draw(3)), 2, &woken)?;
     }
   }
   e2::run_for(50 * MS)?;
   // ---- final drain: every form must come to rest within a generous number of calls --------------------
   let total: usize = streams.iter().map(|s| s.len()).sum();
-  drain(&form, &mut rd, &mut stream_holder, &mut got, &mut calls, 3 * total as u64 + 12)?;
+  drain(&form, &mut rd, &mut stream_holder, &mut got, &mut calls, 3 * total as u64 + 12, total + 2, &woken)?;
   e2::log(&format!("got {got:?} in {calls} calls"));
 
   // ---- oracle ------------------------------------------------------------------------------------------------
@@ -306,7 +349,7 @@ fn body() -> Check {
           k: if with_key { *k } else { 0 },
           v: v.clone(),
         }),
-        Item::DisposeKey { k } | Item::DisposeHashKnown { k } => Some(Got::Dispose { k: *k }),
+        Item::DisposeKey { k } | Item::DisposeHashKnown { k } if with_key => Some(Got::Dispose { k: *k }),
         _ => None,
       })
       .collect();
@@ -370,32 +413,61 @@ fn dummy_simple(
 fn drain(
   form: &Form,
   rd: &mut Rd,
-  stream: &mut Option<Pin<Box<dyn Stream<Item = rustdds::dds::ReadResult<Sample<Msg, u32>>>>>>,
+  stream: &mut Option<Pin<Box<dyn Stream<Item = Got>>>>,
   got: &mut Vec<Got>,
   calls: &mut u64,
   max_calls: u64,
+  max_idle: usize,
+  woken: &std::sync::Arc<WakeFlag>,
 ) -> Check {
-  let waker = futures::task::noop_waker();
+  use std::sync::atomic::Ordering;
+  let waker = futures::task::waker(woken.clone());
   let mut cx = Context::from_waker(&waker);
+  let is_task = matches!(
+    form,
+    Form::AsyncStream | Form::AsyncSampleStream | Form::NoKeyAsyncBare | Form::NoKeyAsync | Form::NoKeySimpleAsync
+  );
   let mut idle = 0;
   for _ in 0..max_calls {
-    *calls += 1;
-    let before = got.len();
-    if *form == Form::AsyncStream {
-      if let Some(s) = stream.as_mut() {
-        match s.as_mut().poll_next(&mut cx) {
-          Poll::Ready(Some(Ok(Sample::Value(m)))) => got.push(Got::Value { k: m.k, v: m.v }),
-          Poll::Ready(Some(Ok(Sample::Dispose(k)))) => got.push(Got::Dispose { k }),
-          Poll::Ready(Some(Err(_))) => got.push(Got::Error),
-          Poll::Ready(None) | Poll::Pending => {}
+    if is_task {
+      // an executor polls a task that was woken, and goes on polling while it makes progress
+      if !woken.0.swap(false, Ordering::SeqCst) {
+        break;
+      }
+      loop {
+        *calls += 1;
+        let before = got.len();
+        let pending = if let Some(s) = stream.as_mut() {
+          match s.as_mut().poll_next(&mut cx) {
+            Poll::Ready(Some(g)) => {
+              got.push(g);
+              false
+            }
+            Poll::Ready(None) => true,
+            Poll::Pending => true,
+          }
+        } else {
+          rd.drain_once(form, got, &mut cx)
+        };
+        if pending {
+          break;
+        }
+        if got.len() == before {
+          // Ready without an item cannot happen for the streams above
+          break;
+        }
+        if *calls > 10_000 {
+          return Err(Violation::new("C09/stream-never-pending", "the stream stayed Ready for 10000 polls"));
         }
       }
-    } else {
-      rd.drain_once(form, got, &mut cx);
+      continue;
     }
+    *calls += 1;
+    let before = got.len();
+    rd.drain_once(form, got, &mut cx);
     if got.len() == before {
       idle += 1;
-      if idle >= 2 {
+      if idle >= max_idle {
         break;
       }
     } else {
@@ -405,6 +477,13 @@ fn drain(
   Ok(())
 }
 
+struct WakeFlag(std::sync::atomic::AtomicBool);
+impl futures::task::ArcWake for WakeFlag {
+  fn wake_by_ref(arc_self: &std::sync::Arc<Self>) {
+    arc_self.0.store(true, std::sync::atomic::Ordering::SeqCst);
+  }
+}
+
 enum Rd {
   Wk(with_key::DataReader<Msg>),
   Nk(no_key::DataReader<Blob>),
@@ -412,7 +491,9 @@ enum Rd {
 }
 
 impl Rd {
-  fn drain_once(&mut self, form: &Form, got: &mut Vec<Got>, cx: &mut Context<'_>) {
+  /// returns true if an async form answered Pending
+  fn drain_once(&mut self, form: &Form, got: &mut Vec<Got>, cx: &mut Context<'_>) -> bool {
+    let mut pending = false;
     match (self, form) {
       (Rd::Wk(r), Form::Take) => match r.take(3, ReadCondition::any()) {
         Ok(v) => {
@@ -468,10 +549,11 @@ impl Rd {
             v: d.into_value().v,
           }),
           Poll::Ready(Some(Err(_))) => got.push(Got::Error),
-          Poll::Ready(None) | Poll::Pending => {}
+          Poll::Ready(None) | Poll::Pending => pending = true,
         }
       }
       _ => {}
     }
+    pending
   }
 }
